@@ -25,10 +25,10 @@ open Astria Astria.Merkle Astria.Block
   a repair lands in /repo, flip the corresponding switch (and mark the finding `fixed`). -/
 
 /-- `reconstruct.rs` compares the blob's rollup id with the conductor's (proposed_fixes/F10.diff). -/
-def codeChecksBlobRollupId : Bool := false
+def codeChecksBlobRollupId : Bool := true
 
 /-- `SequencerBlock::try_from_raw` verifies the per-rollup proofs (proposed_fixes/FB1.diff). -/
-def codeVerifiesRollupProofsInFullBlock : Bool := false
+def codeVerifiesRollupProofsInFullBlock : Bool := true
 
 def shaHs : Hashes where
   H := { leaf := fun x => Sha256.hashList (0 :: x)
